@@ -17,6 +17,7 @@ package c20
 import (
 	"fmt"
 	"go/ast"
+	"go/build/constraint"
 	"go/parser"
 	"go/token"
 	"os"
@@ -80,6 +81,7 @@ type Skeletons struct {
 	MerklizerMeths []MethodWrites
 	LoaderMeths    []MethodWrites
 	MethodCallsOn  []string // "pkg.var.Method" calls on package variables (not judged; listed)
+	Skipped        []string // files left out because of their build constraint (verification hooks)
 }
 
 type PkgVar struct {
@@ -110,6 +112,28 @@ type pkgInfo struct {
 	types   map[string]*ast.TypeSpec
 	writers map[string]map[string]bool // var -> functions writing it
 	calls   map[string]bool            // var.Method calls on package variables
+	skipped []string                   // files excluded by their build constraint
+}
+
+// inProductionBuild evaluates the file's //go:build line for a plain linux/amd64 build
+// without custom tags (in particular without the tag "verif").
+func inProductionBuild(src []byte) bool {
+	for _, line := range strings.Split(string(src), "\n") {
+		t := strings.TrimSpace(line)
+		if strings.HasPrefix(t, "package ") {
+			break
+		}
+		if constraint.IsGoBuild(t) {
+			x, err := constraint.Parse(t)
+			if err != nil {
+				return true
+			}
+			return x.Eval(func(tag string) bool {
+				return tag == "linux" || tag == "amd64" || tag == "unix" || tag == "cgo" || strings.HasPrefix(tag, "go1.")
+			})
+		}
+	}
+	return true
 }
 
 func parsePkg(dir, name string) (*pkgInfo, error) {
@@ -124,7 +148,16 @@ func parsePkg(dir, name string) (*pkgInfo, error) {
 		if e.IsDir() || !strings.HasSuffix(n, ".go") || strings.HasSuffix(n, "_test.go") {
 			continue
 		}
-		f, err := parser.ParseFile(p.fset, filepath.Join(dir, n), nil, 0)
+		src, err := os.ReadFile(filepath.Join(dir, n))
+		if err != nil {
+			return nil, err
+		}
+		if !inProductionBuild(src) {
+			// verification hooks (//go:build verif) are not part of the library as shipped
+			p.skipped = append(p.skipped, n)
+			continue
+		}
+		f, err := parser.ParseFile(p.fset, filepath.Join(dir, n), src, 0)
 		if err != nil {
 			return nil, notExtractable{fmt.Sprintf("%s does not parse: %v", n, err)}
 		}
@@ -1007,6 +1040,12 @@ func Extract(repo string) (*Skeletons, error) {
 		calls[k] = true
 	}
 	out.MethodCallsOn = sortedKeys(calls)
+	for _, n := range lp.skipped {
+		out.Skipped = append(out.Skipped, "loaders/"+n)
+	}
+	for _, n := range mp.skipped {
+		out.Skipped = append(out.Skipped, "merklize/"+n)
+	}
 	return out, nil
 }
 
@@ -1063,15 +1102,25 @@ func Render(sk *Skeletons) string {
 	b.WriteString("(* methods of *loaders.documentLoader with the receiver fields they write *)\n")
 	wr("generated_loader_methods", sk.LoaderMeths)
 	b.WriteString("(* method calls made on package variables (listed, not judged by the translator) *)\n")
-	fmt.Fprintf(&b, "Definition generated_calls_on_pkg_vars : list string :=\n  %s.\n", strList(sk.MethodCallsOn))
+	fmt.Fprintf(&b, "Definition generated_calls_on_pkg_vars : list string :=\n  %s.\n\n", strList(sk.MethodCallsOn))
+	b.WriteString("(* files not analysed because their build constraint excludes them from a build without custom tags\n   (verification hooks, //go:build verif) *)\n")
+	fmt.Fprintf(&b, "Definition generated_skipped_files : list string :=\n  %s.\n", strList(sk.Skipped))
 	return b.String()
 }
 
-// Translate is the registered translator.
+// Translate is the registered translator.  When the skeleton cannot be extracted the generated
+// file is replaced by one that does not type-check (so that a stale skeleton can never be used
+// by the proofs) and the error is returned (non-zero exit of the translation step).
 func Translate(outDir string) error {
+	path := filepath.Join(outDir, "CacheSkeleton.v")
 	sk, err := Extract(common.RepoDir())
 	if err != nil {
+		msg := strings.ReplaceAll(err.Error(), "*)", "* )")
+		broken := "(* GENERATED: the translator \"cache-skeleton\" could not extract the model from the Go source:\n   " + msg +
+			"\n   This file deliberately does not type-check. *)\nFrom Coq Require Import String.\n" +
+			"Definition skeleton_not_extractable : True := " + coqStr(err.Error()) + "%string.\n"
+		_ = common.WriteIfChanged(path, []byte(broken))
 		return err
 	}
-	return common.WriteIfChanged(filepath.Join(outDir, "CacheSkeleton.v"), []byte(Render(sk)))
+	return common.WriteIfChanged(path, []byte(Render(sk)))
 }
